@@ -222,4 +222,111 @@ def contOld (star gt : α) : List α → List α → Bool
       else (b = a ∨ b = star) && contOld star gt p q
 example : contOld '*' '>' ['>'] ['*'] = true ∧ matchesP '*' '>' ['>'] ['a','b'] = true ∧ matchesP '*' '>' ['*'] ['a','b'] = false := by decide
 
+-- ---------- Go-shaped algorithm (length pre-checks + index loop) = recursive `cont` ----------
+
+/-- the `for ind, tok := range otherArray` loop, reading `myArray[ind]` (my is at least as long) -/
+def loopGo (star gt : α) : List α → List α → Bool
+  | [], _ => true
+  | t :: ts, m :: ms =>
+      if ts = [] ∧ t = gt then true
+      else if t ≠ m ∧ (t ≠ star ∨ m = gt) then false
+      else loopGo star gt ts ms
+  | _ :: _, [] => false
+
+/-- `Subject.IsContainedIn` after `strings.Split` (repaired comparison) -/
+def isContainedInGo (star gt : α) (my other : List α) : Bool :=
+  if my.length > other.length ∧ other.getLast? ≠ some gt then false
+  else if my.length < other.length then false
+  else loopGo star gt other my
+
+theorem cont_short (star gt : α) : ∀ (p q : List α), p.length < q.length → cont star gt p q = false := by
+  intro p
+  induction p with
+  | nil => intro q h; cases q with
+    | nil => simp at h
+    | cons b q => simp [cont]
+  | cons a p ih =>
+    intro q h
+    cases q with
+    | nil => simp at h
+    | cons b q =>
+      simp only [List.length_cons] at h
+      simp only [cont]
+      have hq : q ≠ [] := by intro e; subst e; simp at h
+      simp [hq, ih q (by omega)]
+
+theorem cont_long (star gt : α) : ∀ (p q : List α), p.length > q.length → q.getLast? ≠ some gt →
+    cont star gt p q = false := by
+  intro p
+  induction p with
+  | nil => intro q h; simp at h
+  | cons a p ih =>
+    intro q h hl
+    cases q with
+    | nil => simp [cont]
+    | cons b q =>
+      simp only [List.length_cons] at h
+      simp only [cont]
+      by_cases hq : q = []
+      · subst hq
+        have hb : b ≠ gt := by intro e; subst e; simp at hl
+        simp only [hb, and_false, if_false, true_and]
+        cases p with
+        | nil => simp at h
+        | cons c r => simp [cont]
+      · have hl' : q.getLast? ≠ some gt := by
+          intro e; apply hl
+          cases q with
+          | nil => exact absurd rfl hq
+          | cons c r => simpa [List.getLast?_cons_cons] using e
+        simp [hq, ih q (by omega) hl']
+
+theorem go_eq_cont (star gt : α) : ∀ (other my : List α), my.length ≥ other.length →
+    (my.length > other.length → other.getLast? = some gt) →
+    loopGo star gt other my = cont star gt my other := by
+  intro other
+  induction other with
+  | nil =>
+    intro my _ hl
+    cases my with
+    | nil => simp [loopGo, cont]
+    | cons m ms => have := hl (by simp); simp at this
+  | cons t ts ih =>
+    intro my hlen hl
+    cases my with
+    | nil => simp at hlen
+    | cons m ms =>
+      simp only [List.length_cons] at hlen hl
+      simp only [loopGo, cont]
+      by_cases h1 : ts = [] ∧ t = gt
+      · simp [h1]
+      · simp only [h1, if_false]
+        have hrec := ih ms (by omega) (by
+          intro hgt
+          have := hl (by omega)
+          cases ts with
+          | nil => simp at this; exact absurd ⟨rfl, this⟩ h1
+          | cons c r => simpa [List.getLast?_cons_cons] using this)
+        rw [← hrec]
+        by_cases e1 : t = m <;> by_cases e2 : t = star <;> by_cases e3 : m = gt <;> simp [e1, e2, e3]
+
+/-- the code as written in Go equals the recursive form used in `contained_iff` -/
+theorem isContainedInGo_eq_cont (star gt : α) (my other : List α) :
+    isContainedInGo star gt my other = cont star gt my other := by
+  unfold isContainedInGo
+  by_cases h1 : my.length > other.length ∧ other.getLast? ≠ some gt
+  · rw [if_pos h1]
+    exact (cont_long star gt my other h1.1 h1.2).symm
+  · rw [if_neg h1]
+    by_cases h2 : my.length < other.length
+    · rw [if_pos h2]
+      exact (cont_short star gt my other h2).symm
+    · rw [if_neg h2]
+      apply go_eq_cont star gt other my (by omega)
+      intro hgt
+      by_cases e : other.getLast? = some gt
+      · exact e
+      · exact absurd ⟨hgt, e⟩ h1
+
+#print axioms isContainedInGo_eq_cont
 end C16
